@@ -684,20 +684,31 @@ pub struct OriginModel {
 impl OriginModel {
     /// returns true if the version became completely covered by this delivery (partial path)
     pub fn on_deliver(&mut self, c: &Changeset) -> Option<u64> {
+        self.on_deliver_from(c, None)
+    }
+
+    /// `pre`: the model as it was before the batch this message is part of.  The node decides whether it knows the
+    /// versions of an Empty against its bookkeeping as of the start of the batch (what the batch brought is only
+    /// committed to the in-memory view at its end); without a batch that is the current state.
+    pub fn on_deliver_from(&mut self, c: &Changeset, pre: Option<&OriginModel>) -> Option<u64> {
         match c {
             Changeset::Empty { versions, .. } => {
                 let vs = || (versions.start().0..=versions.end().0).filter(|v| *v != 0);
                 self.max = self.max.max(versions.end().0);
+                let (sure, maybe) = {
+                    let p: &OriginModel = pre.unwrap_or(self);
+                    (vs().all(|v| p.held.contains(&v) || p.covered(v)), vs().all(|v| p.held.contains(&v) || p.covered(v) || p.ambiguous(v)))
+                };
                 // A version that is completely buffered and only waits for its apply step counts as known.  The
                 // node ignores an Empty *all* of whose versions it knows (BookedVersions::contains_all) and goes on
                 // to apply what it has; an Empty with at least one unknown version is processed for its whole range,
                 // and then the buffered chunks of the others go too (the supplier says they are empty by now).
-                if vs().all(|v| self.held.contains(&v) || self.covered(v)) {
+                if sure {
                     return None;
                 }
                 // complete by one supplier's last_seq only: whether the node regards the version as known depends
                 // on the declaration it kept - no demand about the buffered ones until an apply step settles it
-                if vs().all(|v| self.held.contains(&v) || self.covered(v) || self.ambiguous(v)) {
+                if maybe {
                     for v in vs() {
                         if !self.held.contains(&v) {
                             self.undetermined.insert(v);
